@@ -98,7 +98,7 @@ def _ours_closures(facts, it, r):
             src, kind, cl = iter_source(item[1] if item[0] == 'item' else item)
             pp = param_path(src)
             if pp and pp[0] == 1 and pp[1] == (r['entries'],):
-                cb = facts.by_uid.get(clo[1])
+                cb = facts.cb(clo[1])
                 if cb is not None:
                     out.append((c, cb, mapping))
     return out
@@ -128,7 +128,7 @@ def _entry_clock_match(x, r, sub, side):
 def _ours_loop_form(ctx, facts, body, it, r, sub, name, props):
     """our-only decision written as an explicit loop over self.entries (or produced from retain/filter by the 's' view)."""
     for lp in loops_of(it):
-        if not lp.whole_over(1, (r['entries'],)):
+        if not lp.whole_over(1, (r['entries'],)) or lp.early_exits():
             continue
         flt = item_filter(facts, it, lp, (r['entries'],))
         if flt is None:
